@@ -1,4 +1,4 @@
-CONSTANTS MaxForms = 1 Level = 1 Emitting = FALSE
+CONSTANTS MaxForms = 1 Level = 1 PipeFail = TRUE Emitting = FALSE
 SPECIFICATION Spec
 INVARIANT CleanAtReturn
 INVARIANT NoOrphans
